@@ -1440,7 +1440,10 @@ static int cfg_parse_internal(cfg_t *cfg, int level, int force_state, cfg_opt_t 
 				goto error;
 			}
 
-			opt = cfg_getopt(cfg, cfg_yylval);
+			if (is_set(CFGF_KEYSTRVAL, cfg->flags))
+				opt = cfg_getopt_leaf(cfg, cfg_yylval); /* a new key is no error */
+			else
+				opt = cfg_getopt(cfg, cfg_yylval);
 			if (!opt) {
 				if (is_set(CFGF_IGNORE_UNKNOWN, cfg->flags)) {
 					state = 10;
